@@ -35,12 +35,12 @@ static COUNTER: AtomicUsize = AtomicUsize::new(0);
 fn open_pty() -> Option<(std::fs::File, std::fs::File)> {
     use std::os::unix::io::FromRawFd;
     unsafe {
-        let m = libc::posix_openpt(libc::O_RDWR | libc::O_NOCTTY);
+        let m = libc::posix_openpt(libc::O_RDWR | libc::O_NOCTTY | libc::O_CLOEXEC);
         if m < 0 { return None; }
         if libc::grantpt(m) != 0 || libc::unlockpt(m) != 0 { libc::close(m); return None; }
         let mut buf = [0 as libc::c_char; 128];
         if libc::ptsname_r(m, buf.as_mut_ptr(), buf.len()) != 0 { libc::close(m); return None; }
-        let s = libc::open(buf.as_ptr(), libc::O_RDWR | libc::O_NOCTTY);
+        let s = libc::open(buf.as_ptr(), libc::O_RDWR | libc::O_NOCTTY | libc::O_CLOEXEC);
         if s < 0 { libc::close(m); return None; }
         Some((std::fs::File::from_raw_fd(m), std::fs::File::from_raw_fd(s)))
     }
@@ -97,6 +97,43 @@ pub fn run_cmd(program: &str, w: &World, args: &[String], tty_stdin: bool, timeo
     obs
 }
 
+/// Run `kestrel` on a terminal: standard input is a pseudo-terminal that is also the controlling terminal of the
+/// child (so /dev/tty works), standard output and standard error stay pipes, and `typed` is what the user types
+/// (one line per prompt, each ending in '\n'). Returns the observation and everything the terminal displayed.
+pub fn run_kestrel_typed(w: &World, args: &[String], typed: &[u8], timeout_s: u64) -> (CliObs, Vec<u8>) {
+    let dir = format!("/verif/.cache/tmp/{}-{}", std::process::id(), COUNTER.fetch_add(1, Ordering::SeqCst));
+    let _ = std::fs::remove_dir_all(&dir);
+    std::fs::create_dir_all(&dir).expect("scratch dir");
+    for (p, b) in &w.files { std::fs::write(format!("{}/{}", dir, p), b).expect("write fixture"); }
+    let mut obs = CliObs::default();
+    let (mut master, slave) = match open_pty() { Some(p) => p, None => { obs.stderr = "no pty".into(); return (obs, vec![]); } };
+    let mut cmd = Command::new(bin());
+    cmd.args(args).current_dir(&dir).env_clear().stdout(Stdio::piped()).stderr(Stdio::piped()).stdin(Stdio::from(slave.try_clone().expect("dup pty")));
+    for (k, v) in &w.env { cmd.env(k, v); }
+    unsafe { use std::os::unix::process::CommandExt; cmd.pre_exec(|| { libc::setsid(); if libc::ioctl(0, libc::TIOCSCTTY, 0) != 0 { return Err(std::io::Error::last_os_error()); } Ok(()) }); }
+    let mut child = match cmd.spawn() { Ok(c) => c, Err(e) => { obs.stderr = format!("spawn failed: {}", e); let _ = std::fs::remove_dir_all(&dir); return (obs, vec![]); } };
+    drop(cmd); drop(slave);        // the child now holds the only descriptors of the terminal's other end
+    let mut mrd = master.try_clone().expect("dup master");
+    let tscreen = std::thread::spawn(move || { let mut v = vec![]; let mut buf = [0u8; 4096]; loop { match mrd.read(&mut buf) { Ok(0) | Err(_) => break, Ok(n) => v.extend_from_slice(&buf[..n]) } } v });
+    let _ = master.write_all(typed);
+    let mut so = child.stdout.take().unwrap(); let mut se = child.stderr.take().unwrap();
+    let tout = std::thread::spawn(move || { let mut v = vec![]; let _ = so.read_to_end(&mut v); v });
+    let terr = std::thread::spawn(move || { let mut v = vec![]; let _ = se.read_to_end(&mut v); v });
+    let t0 = Instant::now();
+    let status = loop {
+        match child.try_wait() { Ok(Some(s)) => break Some(s), Ok(None) => { if t0.elapsed() > Duration::from_secs(timeout_s) { let _ = child.kill(); let _ = child.wait(); obs.timed_out = true; break None; } std::thread::sleep(Duration::from_millis(2)); } Err(_) => break None }
+    };
+    obs.stdout = tout.join().unwrap_or_default();
+    obs.stderr = String::from_utf8_lossy(&terr.join().unwrap_or_default()).to_string();
+    drop(master);
+    let screen = tscreen.join().unwrap_or_default();
+    if let Some(s) = status { obs.exit = s.code(); obs.signal = s.code().is_none(); }
+    if let Ok(rd) = std::fs::read_dir(&dir) { for e in rd.flatten() { if let Ok(name) = e.file_name().into_string() { if let Ok(b) = std::fs::read(e.path()) { obs.files.push((name, b)); } } } }
+    obs.files.sort();
+    let _ = std::fs::remove_dir_all(&dir);
+    (obs, screen)
+}
+
 #[derive(Clone, Debug, Default)]
 pub struct ModelObs { pub exit: i32, pub err: String, pub stdout: Vec<u8>, pub sender: String, pub files: Vec<(String, Vec<u8>)> }
 impl ModelObs { pub fn file(&self, p: &str) -> Option<&Vec<u8>> { self.files.iter().find(|(n, _)| n == p).map(|(_, b)| b) } }
@@ -107,6 +144,10 @@ pub fn model_cli(m: &mut Model, w: &World, args: &[String], ra: &[u8], rb: &[u8]
     let env: Vec<(String, Vec<u8>)> = w.env.iter().map(|(k, v)| (k.clone(), v.as_bytes().to_vec())).collect();
     let mut argv = vec![hex(b"kestrel")]; for a in args { argv.push(if a.is_empty() { String::new() } else { hex(a.as_bytes()) }); }
     let resp = m.ask(&format!("cli_run {} {} {} {} {} {}", pairs(&w.files), pairs(&env), hexd(&w.stdin), hexd(ra), hexd(rb), argv.join(",")));
+    parse_model_obs(&resp)
+}
+
+fn parse_model_obs(resp: &str) -> ModelObs {
     let mut o = ModelObs::default();
     for f in resp.split(' ') {
         if let Some(v) = f.strip_prefix("exit=") { o.exit = v.parse().unwrap_or(-1); }
@@ -117,6 +158,16 @@ pub fn model_cli(m: &mut Model, w: &World, args: &[String], ra: &[u8], rb: &[u8]
     }
     o.files.sort();
     o
+}
+
+/// the Lean model of the tool on a terminal (`cli_tty`): `typed` = the lines typed, in order; returns the outcome and the number of retries
+pub fn model_cli_tty(m: &mut Model, w: &World, args: &[String], typed: &[&str], ra: &[u8], rb: &[u8]) -> (ModelObs, usize) {
+    let env: Vec<(String, Vec<u8>)> = w.env.iter().map(|(k, v)| (k.clone(), v.as_bytes().to_vec())).collect();
+    let mut argv = vec![hex(b"kestrel")]; for a in args { argv.push(if a.is_empty() { String::new() } else { hex(a.as_bytes()) }); }
+    let lines = if typed.is_empty() { "-".to_string() } else { typed.iter().map(|l| if l.is_empty() { String::new() } else { hex(l.as_bytes()) }).collect::<Vec<_>>().join(",") };
+    let resp = m.ask(&format!("cli_tty {} {} {} {} {} {}", pairs(&w.files), pairs(&env), lines, hexd(ra), hexd(rb), argv.join(",")));
+    let retries = resp.split(' ').find_map(|f| f.strip_prefix("retries=")).and_then(|v| v.parse().ok()).unwrap_or(usize::MAX);
+    (parse_model_obs(&resp), retries)
 }
 
 /// canonical sender string of the implementation in the model's format
